@@ -76,12 +76,56 @@ func classEscape(s string) string {
 	return s
 }
 
-// Tokens splits src into tokens under delimiters d.
+// endMatcher matches the tag called name (endraw, endcomment), with or without arguments.
+func endMatcher(d [4]string, name string) *regexp.Regexp {
+	matcherMu.Lock()
+	defer matcherMu.Unlock()
+	key := [4]string{d[0], d[1], d[2] + "\x00" + name, d[3]}
+	if m := matchers[key]; m != nil {
+		return m
+	}
+	tr := d[3]
+	var excl []string
+	for i := 0; i < len(tr); {
+		j := i + 1
+		for j < len(tr) && tr[j]&0xC0 == 0x80 {
+			j++
+		}
+		excl = append(excl, regexp.QuoteMeta(tr[:i])+`[^`+classEscape(tr[i:j])+`]`)
+		i = j
+	}
+	m := regexp.MustCompile(regexp.QuoteMeta(d[2]) + `-?\s*` + name + `(?:\s+(?:` + strings.Join(excl, "|") + `)+?)?\s*-?` + regexp.QuoteMeta(d[3]))
+	matchers[key] = m
+	return m
+}
+
+// Tokens splits src into tokens under delimiters d. The body of a raw or comment block is not tokenised:
+// "the body of a raw block is emitted exactly as written whatever tag-like text it contains", so it runs up to
+// the first end tag and is one piece of text, however much of it looks like the beginning of a tag or object.
 func Tokens(src string, d [4]string) []Tok {
 	var out []Tok
 	m := matcher(d)
 	p, line := 0, 0
-	for _, ix := range m.FindAllStringSubmatchIndex(src, -1) {
+	opaque := ""
+	for p < len(src) {
+		if opaque != "" {
+			if end := endMatcher(d, "end"+opaque).FindStringIndex(src[p:]); end != nil && end[0] > 0 {
+				body := src[p : p+end[0]]
+				out = append(out, Tok{Kind: Text, Src: body, Line: line, Off: p})
+				line += strings.Count(body, "\n")
+				p += end[0]
+			}
+			opaque = ""
+		}
+		ix := m.FindStringSubmatchIndex(src[p:])
+		if ix == nil {
+			break
+		}
+		for i := range ix {
+			if ix[i] >= 0 {
+				ix[i] += p
+			}
+		}
 		ts, te := ix[0], ix[1]
 		if p < ts {
 			out = append(out, Tok{Kind: Text, Src: src[p:ts], Line: line, Off: p})
@@ -93,7 +137,9 @@ func Tokens(src string, d [4]string) []Tok {
 		} else {
 			t := Tok{Kind: Tag, Src: s, Name: src[ix[10]:ix[11]], TrimL: ix[9] > ix[8], TrimR: ix[15] > ix[14], Line: line, Off: ts}
 			if ix[12] >= 0 {
-				t.Args = src[ix[12]:ix[13]]
+				// the arguments end where the white space before the closing delimiter begins, also when the pattern's
+				// two-character alternative ("% " in {% tag 50% %}) took a blank along
+				t.Args = strings.TrimRight(src[ix[12]:ix[13]], " \t\r\n\f")
 				// in a tag without arguments ({% name -%}) the shortest-match argument group takes the hyphen: it is
 				// the trim marker, not an argument
 				if hy := te - len(d[3]) - 1; !t.TrimR && src[hy] == '-' && ix[13] > hy {
@@ -102,6 +148,9 @@ func Tokens(src string, d [4]string) []Tok {
 				}
 			}
 			out = append(out, t)
+			if t.Name == "raw" || t.Name == "comment" {
+				opaque = t.Name
+			}
 		}
 		line += strings.Count(s, "\n")
 		p = te
